@@ -346,7 +346,7 @@ class VisibleSpec:
     def make_interp(self):
         it = W.interp('ide', uc=True)
         it.allow = [r'^def::hir::<impl at [^>]*>::(visible_modules|dependencies|module_map)$', r'^def::hir::<impl at [^>]*>::(visible_modules|dependencies)::\{closure#\d+\}$',
-                    r'^base::<impl at [^>]*>::(insert|iter|default)$', r'^base::<impl at [^>]*>::iter::\{closure#\d+\}$']
+                    r'^base::<impl at [^>]*>::\w+$', r'^base::<impl at [^>]*>::\w+::\{closure#\d+\}$']       # every ModuleMap / FileSet helper is executed, not guessed
         scopes.install(it)
         self.e = {(a, b): z3.Bool('dep_%d_%d' % (a, b)) for a in range(3) for b in range(3) if a != b}
         spec = self
